@@ -231,7 +231,10 @@ def c06_tree():
         <chunked>
             <field name="leader" type="Member"/>
             <break/>
-            <array name="members" type="Member" delimited="true"/>
+            <length name="members_count" type="char"/>
+            <array name="members" type="Member" length="members_count" delimited="true" trailing-delimiter="false"/>
+            <break/>
+            <field name="closing" type="short"/>
         </chunked>
     </packet>
     <packet family="Talk" action="Pairs">
@@ -317,35 +320,42 @@ def run_generated(plan, env, res, tr, fail):
 
 def run_generated_roster(g, net, srv, EoWriter, EoReader, res, tr, fail):
     mk = lambda m: net.Member(rank=m[0], name=m[1])
-    pkt = srv.TalkRosterServerPacket(leader=mk(g["members"][0]), members=[mk(m) for m in g["members"][1:]])
+    rest = g["members"][1:]
+    closing = (g["members"][0][0] * 7 + 3) % 64009
+    pkt = srv.TalkRosterServerPacket(leader=mk(g["members"][0]), members=[mk(m) for m in rest], closing=closing)
     w = EoWriter()
     pkt.write(w)
     out = bytes(w.to_bytearray())
     tr.ev("generated", "Roster", out.hex())
     res.count("probe.generated_serializer_session")
     res.count("probe.chunked_section_of_structs_only")
-    n = len(g["members"])
-    if out.count(0xFF) != n:
+    # leader | count + first member | further members (separated, no trailing delimiter) | closing number
+    chunks = [[("short", g["members"][0][0]), ("s", g["members"][0][1])]]
+    chunks.append([("char", len(rest))] + ([("short", rest[0][0]), ("s", rest[0][1])] if rest else []))
+    chunks += [[("short", m[0]), ("s", m[1])] for m in rest[1:]]
+    chunks.append([("short", closing)])
+    if out.count(0xFF) != len(chunks) - 1:
         return fail("break-in-payload", "generated-serializer",
-                    f"TalkRosterServerPacket wrote {out.count(0xFF)} break bytes for {n} delimited members: {out.hex()} "
+                    f"TalkRosterServerPacket wrote {out.count(0xFF)} break bytes for {len(chunks)} chunks: {out.hex()} "
                     f"(members {g['members']})", 0)
     r = EoReader(out)
     r.chunked_reading_mode = True
-    for ci, (rank, name) in enumerate(g["members"]):
-        if not g["skip"][ci]:
-            got = (r.get_short(), r.get_string())
-            if got != (rank, image(name)):
-                return fail("field-value", "generated-serializer",
-                            f"TalkRosterServerPacket: member {ci} {(rank, name)!r} read as {got!r} (wire {out.hex()})", ci)
-            if g["extra"][ci] and r.get_int() != 0:
-                return fail("surplus-value", "generated-serializer", f"TalkRosterServerPacket: surplus read after member {ci} is not 0", ci)
+    for ci, fields in enumerate(chunks):
+        if not g["skip"][ci % len(g["skip"])]:
+            for kind, val in fields:
+                got, want = (r.get_string(), image(val)) if kind == "s" else (getattr(r, "get_" + kind)(), val)
+                if got != want:
+                    return fail("field-value", "generated-serializer",
+                                f"TalkRosterServerPacket: chunk {ci} field {val!r} read as {got!r} (wire {out.hex()})", ci)
+            if g["extra"][ci % len(g["extra"])] and r.get_int() != 0:
+                return fail("surplus-value", "generated-serializer", f"TalkRosterServerPacket: surplus read after chunk {ci} is not 0", ci)
         r.next_chunk()
     if r.remaining != 0:
-        return fail("not-at-end", "generated-serializer", f"remaining={r.remaining} after the last member", 0)
+        return fail("not-at-end", "generated-serializer", f"remaining={r.remaining} after the last chunk", 0)
     # ... and the generated receiver agrees
     back = srv.TalkRosterServerPacket.deserialize(EoReader(out))
-    got = [(m.rank, m.name) for m in [back.leader] + list(back.members)]
-    want = [(m[0], image(m[1])) for m in g["members"]]
+    got = [(m.rank, m.name) for m in [back.leader] + list(back.members)] + [back.closing]
+    want = [(m[0], image(m[1])) for m in g["members"]] + [closing]
     if got != want:
         return fail("field-value", "generated-serializer", f"TalkRosterServerPacket deserialized {got!r}, expected {want!r} (wire {out.hex()})", 0)
     return None
